@@ -27,3 +27,4 @@ done
 # restore generated files to the real tree
 /venv/bin/python tools/py2lean.py --repo /repo --out lean/PGM/Generated >/dev/null 2>&1
 /venv/bin/python tools/py2flow.py --repo /repo --out lean/PGM/Generated >/dev/null 2>&1
+/venv/bin/python tools/py2dom.py --repo /repo --out lean/PGM/Generated >/dev/null 2>&1
